@@ -85,7 +85,8 @@ PROBE_STR = [u'', u'a', u'abc', u'abcdefghijkl', u'0', u'7', u'-5', u'1000',
 PROBE_NATIVE = [None, 0, 7, -5, 1000, u'', u'a', u'abcdefghijkl',
                 decimal.Decimal('1.5')]
 
-OPS = ['prim_customize', 'customize', 'child_attrs', 'child_attrs_all',
+OPS = ['ordered_class', 'prim_customize', 'customize', 'child_attrs',
+       'child_attrs_all',
        'child_attrs_noexc', 'array', 'iterable', 'mandatory', 'subclass',
        'append_field', 'insert_field', 'gc_collect', 'drop_reference',
        'touch_caches', 'mandatory', 'array', 'append_field', 'customize']
@@ -249,18 +250,24 @@ def _diff(a, b, path=''):
 
 
 def gen_cases(tier, verif_seed):
-    n = {'quick': 12000, 'thorough': 300000}[tier]
-    n_env = {'quick': 16, 'thorough': 160}[tier]
+    n = {'quick': 9600, 'thorough': 300000}[tier]
+    n_env = {'quick': 64, 'thorough': 640}[tier]
+    every = max(1, n // n_env)
+    j = 0
     for i in range(n):
         seed = derive(ID, verif_seed, i) & 0xffffffffffff
         yield {'kind': 'history', 'seed': seed, 'ops': None}
-    for j in range(n_env):
-        seed = derive(ID, verif_seed, 'env', j) & 0xffffffffffff
-        r = Streams(seed)['env']
-        yield {'kind': 'env', 'seed': seed,
-               'hist_seeds': [derive(ID, verif_seed, r.randrange(n))
-                              & 0xffffffffffff for _ in range(40)],
-               'hashseed': r.randint(1, 2 ** 31), 'pad': r.randint(0, 5000)}
+        if i % every == every - 1 and j < n_env:
+            # environment replays are spread over the blocks (each starts a
+            # child interpreter)
+            seed = derive(ID, verif_seed, 'env', j) & 0xffffffffffff
+            j += 1
+            r = Streams(seed)['env']
+            yield {'kind': 'env', 'seed': seed,
+                   'hist_seeds': [derive(ID, verif_seed, r.randrange(n))
+                                  & 0xffffffffffff for _ in range(40)],
+                   'hashseed': r.randint(1, 2 ** 31),
+                   'pad': r.randint(0, 5000)}
 
 
 def _draw_attrs(r, kind):
@@ -288,8 +295,14 @@ def draw_ops(seed):
             ops.append([k, a, _draw_attrs(r, r.choice(('Integer', 'Unicode',
                                                        'other')))])
         elif k in ('child_attrs', 'child_attrs_noexc'):
-            ops.append([k, a, [[r.getrandbits(8), _draw_attrs(r, 'other')]
-                               for _ in range(r.randint(1, 2))]])
+            spec = [[r.getrandbits(8), _draw_attrs(r, 'other')]
+                    for _ in range(r.randint(1, 2))]
+            if k == 'child_attrs' and r.random() < .5:
+                # name a field that does not exist yet ("delayed" attrs):
+                # ['future', n] = the n-th field that will be added next
+                spec.append([['future', r.randint(1, 3)],
+                             _draw_attrs(r, 'Integer')])
+            ops.append([k, a, spec])
         elif k == 'child_attrs_all':
             ops.append([k, a, _draw_attrs(r, 'other')])
         elif k == 'array':
@@ -299,6 +312,12 @@ def draw_ops(seed):
             ops.append([k, a])
         elif k == 'subclass':
             ops.append([k, a, [b % 7, (b >> 3) % 7][:r.randint(1, 2)]])
+        elif k == 'ordered_class':
+            nf = r.randint(3, 7)
+            orders = [None] * nf
+            for idx in r.sample(range(nf), r.randint(2, min(4, nf))):
+                orders[idx] = r.choice((0, 1, 2, 3, -1, -2, 5))
+            ops.append([k, a, orders])
         elif k == 'append_field':
             ops.append([k, a, b])
         elif k == 'insert_field':
@@ -340,8 +359,14 @@ class Machine(object):
 
     def _add(self, cls, kind, src, rel, base):
         self.pool.append(cls)
+        delayed, delayed_all = {}, None
+        if src is not None and rel in ('customized',):
+            # a variant starts with a copy of its source's delayed attrs
+            delayed = copy.deepcopy(self.meta[src].get('delayed', {}))
+            delayed_all = copy.deepcopy(self.meta[src].get('delayed_all'))
         self.meta.append({'kind': kind, 'src': src, 'rel': rel, 'base': base,
-                          'alive': True})
+                          'alive': True, 'delayed': delayed,
+                          'delayed_all': delayed_all})
         return len(self.pool) - 1
 
     def viol(self, sig, what):
@@ -444,10 +469,55 @@ class Machine(object):
                           '%s%r changed pool member %d (%s, %s) which it does '
                           'not name: %s' % (k, op[1:], i,
                           self.meta[i]['base'], rel, _diff(x, y)))
+        self._coherence()
         self.snaps = after
         if new_idx is not None:
             self.snaps.append(snapshot(self.pool[new_idx])) \
                 if len(self.snaps) < len(self.pool) else None
+
+    def _coherence(self):
+        """An observer that looked BEFORE a change (warm memo tables) must see
+        what a fresh observer sees."""
+        memos = [ComplexModelBase.get_flat_type_info,
+                 ComplexModelBase.get_simple_type_info_with_prot,
+                 ComplexModelBase.get_subclasses.__func__
+                 if hasattr(ComplexModelBase.get_subclasses, '__func__')
+                 else None]
+        memos = [m for m in memos if m is not None and hasattr(m, 'memo')]
+
+        def observe():
+            out = []
+            for i in self._live(('complex', 'array')):
+                c = self.pool[i]
+                try:
+                    flat = list(c.get_flat_type_info(c).keys())
+                except Exception as e:
+                    flat = 'E:' + type(e).__name__
+                try:
+                    simple = list(c.get_simple_type_info(c).keys())
+                except Exception as e:
+                    simple = 'E:' + type(e).__name__
+                out.append((i, flat, simple))
+            return out
+
+        warm = observe()
+        saved = [m.memo for m in memos]
+        for m in memos:
+            m.memo = {}
+        try:
+            cold = observe()
+        finally:
+            for m, d in zip(memos, saved):
+                m.memo = d
+        for (i, f1, s1), (_, f2, s2) in zip(warm, cold):
+            if f1 != f2:
+                self.viol('stale-cache|flat_type_info', 'member %d: cached '
+                          'get_flat_type_info %r, fresh %r' % (i, f1, f2))
+                break
+            if s1 != s2:
+                self.viol('stale-cache|simple_type_info', 'member %d: cached '
+                          'get_simple_type_info %r, fresh %r' % (i, s1, s2))
+                break
 
     def _relation(self, i, op):
         """How member i relates to the operand of op (for the signature)."""
@@ -560,7 +630,17 @@ class Machine(object):
         if not names:
             raise _Skip()
         d = {}
+        future = {}
         for a, attrs in spec:
+            if isinstance(a, list):
+                fa = dict((k, v) for k, v in attrs.items()
+                          if k in ('min_occurs', 'nillable', 'ge', 'le',
+                                   'sub_name'))
+                if fa:
+                    nm = 'f%d' % (self.counter + a[1])
+                    d[nm] = fa
+                    future[nm] = fa
+                continue
             fa = dict((k, v) for k, v in attrs.items()
                       if k in ('min_occurs', 'nillable', 'sub_name', 'exc',
                                'order', 'max_occurs'))
@@ -568,6 +648,7 @@ class Machine(object):
                 d[names[a % len(names)]] = fa
         if not d:
             raise _Skip()
+        self._future = future
         return d
 
     def op_child_attrs(self, op, dicts, key='child_attrs'):
@@ -576,10 +657,14 @@ class Machine(object):
             raise _Skip()
         self._last_target = i
         src = self.pool[i]
+        self._future = {}
         d = self._child_dict(src, op[2])
         saved = copy.deepcopy(d)
         new = src.customize(**{key: d})
-        dicts.append((key, d, saved))
+        dicts.append((key, d, copy.deepcopy(saved)))
+        future = dict(self._future)
+        for nm in future:
+            saved.pop(nm, None)
         # effect: named children carry the attrs, the others are unchanged
         fa = src.get_flat_type_info(src)
         fb = new.get_flat_type_info(new)
@@ -615,6 +700,13 @@ class Machine(object):
                                   sa['attrs'][an], sb['attrs'].get(an)))
         self.nontrivial = True
         j = self._add(new, 'complex', i, 'customized', self.meta[i]['base'])
+        for nm, fa in future.items():
+            self.meta[j]['delayed'][nm] = copy.deepcopy(fa)
+            self.fired['delayed_child_attrs'] = \
+                                self.fired.get('delayed_child_attrs', 0) + 1
+        if key == 'child_attrs_noexc':
+            # replaces (does not merge with) what the source had
+            self.meta[j]['delayed_all'] = {'exc': True}
         return j, set()
 
     def op_child_attrs_noexc(self, op, dicts):
@@ -648,6 +740,7 @@ class Machine(object):
                               '%r' % (name, an, sb.get(an), av))
         self.nontrivial = True
         j = self._add(new, 'complex', i, 'customized', self.meta[i]['base'])
+        self.meta[j]['delayed_all'] = dict(saved)    # replaces, no merge
         return j, set()
 
     def op_array(self, op, dicts):
@@ -709,7 +802,9 @@ class Machine(object):
             kind = 'array'
         if self._has_derivatives(i):
             self.nontrivial = True
-        j = self._add(new, kind, i, 'array-of', self.meta[i]['base'])
+        # Array(T, wrapped=False) is T.customize(...): a variant of T
+        j = self._add(new, kind, i, 'customized' if variant == 'unwrapped'
+                      else 'array-of', self.meta[i]['base'])
         return j, set()
 
     def op_iterable(self, op, dicts):
@@ -764,6 +859,23 @@ class Machine(object):
         j = self._add(new, 'complex', i, 'subclass', 'S%d' % self.counter)
         return j, set()
 
+    def op_ordered_class(self, op, dicts):
+        """A class several of whose fields carry an explicit `order`.  What the
+        resulting order must be is spyne's business; that it is the same under
+        every hash seed is checked by the environment replays."""
+        self.counter += 1
+        fields = []
+        for n, o in enumerate(op[2]):
+            t = Unicode if n % 2 else Integer
+            if o is not None:
+                t = t(order=o)
+            fields.append(('o%d_%s' % (self.counter, 'abcdefgh'[n]), t))
+        new = type('O%d' % self.counter, (ComplexModel,), {
+            '__namespace__': 'ns.c', '_type_info': list(fields)})
+        self._last_target = None
+        j = self._add(new, 'complex', None, 'declared', 'O%d' % self.counter)
+        return j, set()
+
     def _evolve(self, op, insert):
         i = self._pick(op[1], ('complex',))
         if i is None:
@@ -794,8 +906,36 @@ class Machine(object):
             cls.insert_field(idx, name, ft)
         else:
             cls.append_field(name, ft)
+        base_attrs = snapshot(ft)['attrs']
         for j in direct:
             c = self.pool[j]
+            got_t = c._type_info.get(name)
+            if got_t is not None:
+                want = dict(base_attrs)
+                over = dict(self.meta[j].get('delayed_all') or {})
+                dl = self.meta[j].get('delayed', {})
+                if name in dl:
+                    over.update(dl[name])
+                    if insert:
+                        dl.pop(name)     # insert_field consumes the entry
+                for an, av in over.items():
+                    want[an] = 'D:Infinity' if (an == 'max_occurs' and
+                                    av == 'unbounded') else _canon(av)
+                    if an == 'nillable':
+                        want['nullable'] = _canon(av)
+                got = snapshot(got_t)['attrs']
+                for an in sorted(want):
+                    if an in ('unicode_pattern', 'max_str_len'):
+                        continue
+                    if got.get(an) != want[an]:
+                        rel = 'class' if j == i else 'variant'
+                        self.viol('evolve|new-field-attrs|%s|%s' % (rel, an),
+                                  '%s: new field %s of %s %d has %s=%r, '
+                                  'expected %r (type attrs + this variant\'s '
+                                  'own delayed child attrs %r)' % (op[0],
+                                  name, rel, j, an, got.get(an), want[an],
+                                  over))
+                        break
             own = list(c._type_info.keys())
             exp = list(own_before[j])
             if insert:
